@@ -327,6 +327,86 @@ impl TraceOodFrame {
     }
 }
 
+// Commitments::new - the writer Commitments::parse reads back: trace roots, constraint root, FRI roots, in that order.
+pub uninterp spec fn enc_t(x: T) -> Seq<u8>;
+pub open spec fn enc_many(v: Seq<T>) -> Seq<u8>
+    decreases v.len()
+{
+    if v.len() == 0 { Seq::<u8>::empty() } else { enc_many(v.drop_last()) + enc_t(v.last()) }
+}
+// `Vec<u8>` used as a ByteWriter (write_many is proved from its body in unit serdev)
+pub struct VecWriter { pub v: Vec<u8> }
+impl VecWriter {
+    pub fn new() -> (r: VecWriter) ensures r.v@.len() == 0 { VecWriter { v: Vec::new() } }
+    #[verifier::external_body]
+    pub fn write_many(&mut self, e: &Vec<T>) ensures final(self).v@ == old(self).v@ + enc_many(e@) { unimplemented!() }
+    #[verifier::external_body]
+    pub fn write(&mut self, e: T) ensures final(self).v@ == old(self).v@ + enc_t(e) { unimplemented!() }
+    pub fn into_vec(self) -> (r: Vec<u8>) ensures r@ == self.v@ { self.v }
+}
+impl Commitments {
+    //@@ source air/src/proof/commitments.rs
+    //@@ extract anchor="pub fn new<H: Hasher>("
+    //@@ rewrite "let mut bytes = Vec::new();" => "let mut bytes = VecWriter::new();"
+    //@@ rewrite "Commitments(bytes)" => "Commitments(bytes.into_vec())"
+    pub fn new(trace_roots: Vec<T>, constraint_root: T, fri_roots: Vec<T>) -> (r: Self)
+        ensures r.0@ =~= enc_many(trace_roots@) + enc_t(constraint_root) + enc_many(fri_roots@)
+    {
+        /*@@body*/
+    }
+}
+proof fn lemma_enc_front(v: Seq<T>)
+    requires v.len() >= 1
+    ensures enc_many(v) == enc_t(v[0]) + enc_many(v.subrange(1, v.len() as int))
+    decreases v.len()
+{
+    let tail = v.subrange(1, v.len() as int);
+    if v.len() == 1 {
+        assert(v.drop_last() =~= Seq::<T>::empty());
+        assert(tail =~= Seq::<T>::empty());
+        assert(enc_many(v) == enc_many(v.drop_last()) + enc_t(v.last()));
+        assert(Seq::<u8>::empty() + enc_t(v[0]) =~= enc_t(v[0]) + Seq::<u8>::empty());
+    } else {
+        lemma_enc_front(v.drop_last());
+        assert(v.drop_last().subrange(1, v.len() - 1) =~= tail.drop_last());
+        assert(tail.last() == v.last());
+        assert(enc_many(tail) == enc_many(tail.drop_last()) + enc_t(tail.last()));
+        assert((enc_t(v[0]) + enc_many(tail.drop_last())) + enc_t(v.last()) =~= enc_t(v[0]) + (enc_many(tail.drop_last()) + enc_t(v.last())));
+    }
+}
+proof fn lemma_many_rt(v: Seq<T>, rest: Seq<u8>)
+    requires forall|x: T, r: Seq<u8>| dec_t(#[trigger] (enc_t(x) + r)) == Some((x, r))
+    ensures dec_many(enc_many(v) + rest, v.len()) == Some((v, rest))
+    decreases v.len()
+{
+    if v.len() == 0 {
+        assert(enc_many(v) + rest =~= rest);
+        assert(v =~= Seq::<T>::empty());
+    } else {
+        let tail = v.subrange(1, v.len() as int);
+        lemma_enc_front(v);
+        assert((enc_t(v[0]) + enc_many(tail)) + rest =~= enc_t(v[0]) + (enc_many(tail) + rest));
+        assert(dec_t(enc_t(v[0]) + (enc_many(tail) + rest)) == Some((v[0], enc_many(tail) + rest)));
+        lemma_many_rt(tail, rest);
+        assert(seq![v[0]] + tail =~= v);
+    }
+}
+// what Commitments::new writes is accepted by Commitments::parse for the matching counts and decodes to the same digests
+proof fn theorem_commitments_roundtrip(t: Seq<T>, c: T, f: Seq<T>)
+    requires f.len() >= 1, forall|x: T, r: Seq<u8>| dec_t(#[trigger] (enc_t(x) + r)) == Some((x, r))
+    ensures
+        commitments_ok(enc_many(t) + enc_t(c) + enc_many(f), t.len(), (f.len() - 1) as nat),
+        dec_many(enc_many(t) + enc_t(c) + enc_many(f), t.len()) == Some((t, enc_t(c) + enc_many(f))),
+        dec_t(enc_t(c) + enc_many(f)) == Some((c, enc_many(f))),
+        dec_many(enc_many(f), f.len()) == Some((f, Seq::<u8>::empty())),
+{
+    let b = enc_many(t) + enc_t(c) + enc_many(f);
+    assert(b =~= enc_many(t) + (enc_t(c) + enc_many(f)));
+    lemma_many_rt(t, enc_t(c) + enc_many(f));
+    assert(enc_many(f) =~= enc_many(f) + Seq::<u8>::empty());
+    lemma_many_rt(f, Seq::<u8>::empty());
+}
+
 proof fn oodv_canary_must_fail(b: Seq<u8>)
     requires trace_ok(b, 1)
     ensures b.len() == 1
